@@ -291,17 +291,26 @@ Definition ms_of (p : pt) : list (expr * expr) :=
   | _ => []
   end.
 
+(* children in order; the first error is raised; result = any child produced something *)
+Definition fold_or {X} (f : X -> result bool) : list X -> result bool :=
+  fix go (l : list X) : result bool :=
+    match l with
+    | [] => Ok false
+    | q :: r => bind (f q) (fun w => bind (go r) (fun w' => Ok (w || w')))
+    end.
+Definition fold_unit {X} (f : X -> result unit) : list X -> result unit :=
+  fix go (l : list X) : result unit :=
+    match l with
+    | [] => Ok tt
+    | q :: r => bind (f q) (fun _ => go r)
+    end.
+
 (* build_waveform in atomic context *)
 Fixpoint build (p : pt) (s : scope) (drop : bool) {struct p} : result bool :=
   match p with
   | Atom k reads dur cs _ => build_atom k reads dur cs s drop
   | AMC subs cs _ =>
-      bind (validate s cs) (fun _ =>
-        (fix go (l : list pt) : result bool :=
-           match l with
-           | [] => Ok false
-           | q :: r => bind (build q s drop) (fun w => bind (go r) (fun w' => Ok (w || w')))
-           end) subs)
+      bind (validate s cs) (fun _ => fold_or (fun q => build q s drop) subs)
   | Par inner ow =>
       bind (build inner s drop) (fun w => if w then bind (eval_all s ow) (fun _ => Ok true) else Ok false)
   | Map inner m cs => bind (eager s m cs) (fun s' => build inner s' drop)
@@ -313,12 +322,7 @@ Fixpoint meas_at (p : pt) (s : scope) {struct p} : result unit :=
   match p with
   | Atom _ _ _ _ ms => meas s ms
   | AMC subs _ ms =>
-      bind (meas s ms) (fun _ =>
-        (fix go (l : list pt) : result unit :=
-           match l with
-           | [] => Ok tt
-           | q :: r => bind (meas_at q s) (fun _ => go r)
-           end) subs)
+      bind (meas s ms) (fun _ => fold_unit (fun q => meas_at q s) subs)
   | Map inner m cs => bind (eager s m cs) (fun s' => meas_at inner s')
   | _ => Err Other
   end.
@@ -331,12 +335,7 @@ Fixpoint run (p : pt) (s : scope) (drop : bool) {struct p} : result bool :=
   | Par inner ow =>
       bind (if drop then Ok tt else eval_all s ow) (fun _ => run inner s drop)
   | Seq subs cs ms =>
-      bind (validate s cs) (fun _ => bind (meas s ms) (fun _ =>
-        (fix go (l : list pt) : result bool :=
-           match l with
-           | [] => Ok false
-           | q :: r => bind (run q s drop) (fun w => bind (go r) (fun w' => Ok (w || w')))
-           end) subs))
+      bind (validate s cs) (fun _ => bind (meas s ms) (fun _ => fold_or (fun q => run q s drop) subs))
   | Rep body count cs ms =>
       bind (validate s cs) (fun _ => bind (eval_int s count) (fun n =>
         if 0 <? n then bind (meas s ms) (fun _ => run body s drop) else Ok false))
@@ -344,12 +343,7 @@ Fixpoint run (p : pt) (s : scope) (drop : bool) {struct p} : result bool :=
       bind (validate s cs) (fun _ =>
       bind (eval_int s a) (fun a' => bind (eval_int s b) (fun b' => bind (eval_int s st) (fun st' =>
       if st' =? 0 then Err Other else
-      bind (meas s ms) (fun _ =>
-        (fix go (l : list Z) : result bool :=
-           match l with
-           | [] => Ok false
-           | v :: r => bind (run body (SRange s i v) drop) (fun w => bind (go r) (fun w' => Ok (w || w')))
-           end) (zrange a' b' st'))))))
+      bind (meas s ms) (fun _ => fold_or (fun v => run body (SRange s i v) drop) (zrange a' b' st'))))))
   | Map inner m cs => bind (validate s cs) (fun _ => run inner (SMapped s m) drop)
   end.
 
